@@ -119,6 +119,7 @@ type Client struct {
 	ConnectStep   int
 	CloseStep     int
 	UpgradeStatus int
+	upgradeJudged bool
 	// Tainted is set when the connection ran into known finding F-3 (an
 	// unsubscribe accepted on a provisional count): from then on the frame-driven
 	// model and the gateway legitimately disagree about this connection.
